@@ -1,184 +1,614 @@
 /*
  * C10 - the message queue is a bounded FIFO of fixed buffers for every geometry.
  *
- * Explicit-state BFS over sequential histories of the real messageq.c, one run
- * per geometry (depth, msg_len, slack) and per constructor (messageq_init and
- * the static initialiser MESSAGEQ_VAR_INIT, objects generated at build time
- * into c10_geoms.h). Model = per-slot status + two cyclic cursors.
+ * messageq.c is linked as an object of its own (lib=); this file sees the public header only.
+ *
+ * Families (all deterministic, all judged by the same per-slot status model and the same oracle, c10_apply):
+ *  A  explicit-state BFS over sequential histories, one run per geometry (depth, msg_len, slack) on a descriptor built by
+ *     messageq_init over a deliberately dirty descriptor (0x00 / 0xFF / 0xA5 fill; re-initialisation of every reachable
+ *     descriptor image is an operation of the search alphabet);
+ *  B  the static initialiser: MESSAGEQ_VAR_INIT objects generated at build time into c10_geoms.h with their arguments
+ *     spelled as literals and as expressions of every operator class; a twin whose image is not byte-identical to what
+ *     messageq_init produces is searched by BFS like family A (in place: the static object itself is the live descriptor);
+ *  C  counter start states: the queue is driven through N real claim-send-receive-release cycles (N on both sides of
+ *     2^8, 2^16 and, in the thorough tier, 2^31 and 2^32), every cycle compared with the model; at each N the descriptor
+ *     image must be one the search of family A has visited, otherwise a BFS starts from it;
+ *  D  geometry sweep: a fixed history (fill, overfull claim, send/receive one by one, rotate by one, fill, send in reverse
+ *     order, drain) for every message size 1..65535 at depth 32 and a grid of sizes at every other depth (thorough: every
+ *     size at every depth), slack 0 and msg_len-1.
  */
 #include "vx.h"
 
-#include "messageq.c"
+#include <librfn/messageq.h>
 
-#define MAXD 32
-#define ARENA_MAX (MAXD * 65535 + 16)	/* message sizes up to the 16-bit limit of the descriptor */
+#include "c10_types.h"		/* generated (bin/checks.d/C10.py): C10_MAXD, C10_MAXM, C10_ARENA_MAX, c10_sa_t, C10_STATIC_BASE, table types */
+
+#define C10_LEN(a) (sizeof(a) / sizeof((a)[0]))
 
 /* the storage: [canary 64][ depth*msg_len | slack ] flush against a guard page */
-static uint8_t *arena_end;		/* first byte of the guard page */
-static uint8_t *arena;			/* start of the caller's memory for the current geometry */
-/* static-initialiser objects need a constant address: a plain static array */
-static uint8_t static_arena[ARENA_MAX + 128];
-#define STATIC_BASE (static_arena + 64)
+static uint8_t *c10_arena_end;		/* first byte of the guard page */
+/* static-initialiser objects need a constant address: a static object (three views for the pointer spellings) */
+c10_sa_t c10_sa;
 
-enum { FREE, CLAIMED, SENT, HELD };
+enum { C10_FREE, C10_CLAIMED, C10_SENT, C10_HELD };
 
-static struct live {
-	messageq_t mq;
-	uint8_t status[MAXD];
+/* the model: per-slot status and three cyclic cursors. The statement says "cyclic order", not where the cycle starts:
+ * the first buffer a fresh queue hands out fixes the rotation (started). */
+static struct c10_model {
+	uint8_t status[C10_MAXD];
 	uint8_t c, r, h;		/* next slot to claim / to receive / oldest held */
-} L;
+	uint8_t started;
+} c10_L;
 
-static int D, M, S;			/* depth, message length, slack bytes */
-static int max_unsent;			/* scope bound on claimed-but-unsent messages (0 = none) */
-static int max_held;			/* scope bound on received-but-unreleased messages (0 = none) */
-static uint8_t *base;			/* arena or STATIC_BASE */
+static messageq_t c10_dyn;		/* the descriptor messageq_init works on */
+static messageq_t c10_ref;		/* reference image for the constructor comparison */
+static messageq_t *c10_Q;		/* the descriptor in use: &c10_dyn or a static twin (in place) */
+#define C10_IMG (sizeof(messageq_t) + sizeof(c10_L))
+
+static int c10_D, c10_M, c10_S;		/* depth, message length, slack bytes */
+static int c10_max_unsent;		/* scope bound on claimed-but-unsent messages (0 = none) */
+static int c10_max_held;		/* scope bound on received-but-unreleased messages (0 = none) */
+static uint8_t *c10_base;		/* start of the caller's memory */
+static int c10_is_static;
 
 #define OP_CLAIM 0
 #define OP_RECEIVE 1
 #define OP_RELEASE 2
-#define OP_SEND0 3			/* OP_SEND0+k: send the k-th oldest claimed-unsent message */
-static int nops;
-static uint64_t exercised[4], null_claims, null_receives;
+#define OP_REINIT 3			/* messageq_init again on the live (used) descriptor, same arguments */
+#define OP_SEND0 4			/* OP_SEND0+k: send the k-th oldest claimed-unsent message */
+static int c10_nops;
+static uint64_t c10_exercised[5], c10_null_claims, c10_null_receives;
 
-static int count(int st) { int n = 0; for (int i = 0; i < D; i++) n += L.status[i] == st; return n; }
-static int kth_claimed(int k)
+#include "c10_geoms.h"		/* generated: c10_geoms[], c10_plain[] (the plain twin of every geometry), c10_units[] (the spelled
+				 * twins, one optional compile unit per base_len spelling class), c10_ptr_form() */
+/* all twins, grouped by geometry; id = geometry index for the plain twin, 100000*(unit+1)+position for a spelled one */
+typedef struct { const c10_twin_t *tw; int id; uint8_t pristine[sizeof(messageq_t)]; } c10_flat_t;
+static c10_flat_t *c10_flat;
+static int c10_nflat;
+static int c10_first[C10_LEN(c10_geoms) + 1];	/* twins of geometry g: c10_flat[c10_first[g] .. c10_first[g+1]) */
+
+static int c10_twins_init(void)
 {
-	/* slots are claimed in cyclic order starting from the oldest outstanding one */
-	int start = L.c;	/* walk the D slots in age order: oldest is the one after c going forward */
-	for (int j = 0; j < D; j++) {
-		int s = (start + j) % D;
-		if (L.status[s] == CLAIMED && k-- == 0) return s;
+	int ng = (int)C10_LEN(c10_geoms), n = ng;
+	c10_units_init();
+	for (int k = 0; k < C10_UNITS; k++) n += c10_units[k].n;
+	c10_flat = calloc((size_t)n, sizeof(*c10_flat));
+	if (!c10_flat) return -1;
+	for (int g = 0; g < ng; g++) c10_first[g + 1] = 1;
+	for (int k = 0; k < C10_UNITS; k++) for (int j = 0; j < c10_units[k].n; j++) {
+		int g = c10_units[k].t[j].geom;
+		if (g < 0 || g >= ng) return -1;
+		c10_first[g + 1]++;
+	}
+	for (int g = 0; g < ng; g++) c10_first[g + 1] += c10_first[g];
+	int *fill = calloc((size_t)ng, sizeof(int));
+	if (!fill) return -1;
+	for (int g = 0; g < ng; g++) { c10_flat_t *f = &c10_flat[c10_first[g] + fill[g]++]; f->tw = &c10_plain[g]; f->id = g; }
+	for (int k = 0; k < C10_UNITS; k++) for (int j = 0; j < c10_units[k].n; j++) {
+		int g = c10_units[k].t[j].geom;
+		c10_flat_t *f = &c10_flat[c10_first[g] + fill[g]++]; f->tw = &c10_units[k].t[j]; f->id = 100000 * (k + 1) + j;
+	}
+	free(fill);
+	c10_nflat = n;
+	/* the images the initialisers wrote, before anything used the objects */
+	for (int i = 0; i < n; i++) memcpy(c10_flat[i].pristine, c10_flat[i].tw->obj, sizeof(messageq_t));
+	return 0;
+}
+static int c10_flat_of_id(int id) { for (int i = 0; i < c10_nflat; i++) if (c10_flat[i].id == id) return i; return -1; }
+
+static vx_bfs c10_b;
+static int c10_in_search;
+static const char *c10_cur_text;	/* how the static twin in use is spelled (NULL: messageq_init) */
+
+static int c10_count(int st) { int n = 0; for (int i = 0; i < c10_D; i++) n += c10_L.status[i] == st; return n; }
+static int c10_kth_claimed(int k)
+{
+	/* slots are claimed in cyclic order: walking forward from the claim cursor visits them oldest first */
+	for (int j = 0; j < c10_D; j++) {
+		int s = (c10_L.c + j) % c10_D;
+		if (c10_L.status[s] == C10_CLAIMED && k-- == 0) return s;
 	}
 	return -1;
 }
-static uint8_t pat(int slot, int i) { return (uint8_t)(0xA0 + slot * 7 + i * 13); }
+static uint8_t c10_pat(int slot, int i) { return (uint8_t)(0xA0 + slot * 7 + i * 13); }
 /* payload bytes that are written and checked: all of a small message, both ends of a large one */
-#define PAYLOAD_IDX(i, M) ((M) <= 16 ? (i) : (i) < 4 ? (i) : (M) - 8 + (i))
-#define PAYLOAD_N(M) ((M) <= 16 ? (M) : 8)
+#define C10_PAYLOAD_IDX(i, M) ((M) <= 16 ? (i) : (i) < 4 ? (i) : (M) - 8 + (i))
+#define C10_PAYLOAD_N(M) ((M) <= 16 ? (M) : 8)
 
-static int op_enabled(int op)
+__attribute__((format(printf, 2, 3)))
+static void c10_fail(const char *clause, const char *fmt, ...)
 {
-	if (op == OP_CLAIM) return !max_unsent || count(CLAIMED) < max_unsent;
-	if (op == OP_RECEIVE) return !max_held || count(HELD) < max_held || L.status[L.r] != SENT;
-	if (op == OP_RELEASE) return count(HELD) > 0;
-	return kth_claimed(op - OP_SEND0) >= 0;
+	char msg[700];
+	va_list ap; va_start(ap, fmt); int n = vsnprintf(msg, 400, fmt, ap); va_end(ap);
+	if (c10_cur_text && n > 0 && n < 400) snprintf(msg + n, sizeof(msg) - (size_t)n, " [queue described by %.250s]", c10_cur_text);
+	vx_bfs_fail(clause, "%s", msg);
+	/* the first (shallowest) counterexample of a search is the one reported; do not go on expanding a broken queue */
+	if (c10_in_search) c10_b.max_depth = 1;
 }
-static void op_describe(int op, vx_sb *sb)
+
+static int c10_enabled(int op)
+{
+	if (op == OP_CLAIM) return !c10_max_unsent || c10_count(C10_CLAIMED) < c10_max_unsent;
+	if (op == OP_RECEIVE) return !c10_max_held || c10_count(C10_HELD) < c10_max_held || c10_L.status[c10_L.r] != C10_SENT;
+	if (op == OP_RELEASE) return c10_count(C10_HELD) > 0;
+	if (op == OP_REINIT) return 1;
+	return c10_kth_claimed(op - OP_SEND0) >= 0;
+}
+static void c10_describe(int op, vx_sb *sb)
 {
 	if (op == OP_CLAIM) vx_sb_printf(sb, "claim");
 	else if (op == OP_RECEIVE) vx_sb_printf(sb, "receive");
 	else if (op == OP_RELEASE) vx_sb_printf(sb, "release");
+	else if (op == OP_REINIT) vx_sb_printf(sb, "init-again");
 	else vx_sb_printf(sb, "send#%d", op - OP_SEND0);
 }
-static long slot_of(void *p)
+/* slot number of a returned pointer; -1 NULL; <= -2: not a multiple of msg_len inside the storage (encodes the offset) */
+static long c10_slot_of(void *p)
 {
 	if (!p) return -1;
-	long off = (uint8_t *)p - base;
-	if (off < 0 || off >= (long)D * M || off % M) return -2 - (off < 0 ? 0 : off);
-	return off / M;
+	long off = (uint8_t *)p - c10_base;
+	if (off < 0 || off >= (long)c10_D * c10_M || off % c10_M) return -2 - (off < 0 ? 0 : off);
+	return off / c10_M;
 }
+/* are the n bytes at p all equal to v */
+static int c10_all(const uint8_t *p, size_t n, uint8_t v) { return n == 0 || (p[0] == v && 0 == memcmp(p, p + 1, n - 1)); }
 
-static int check_memory(void)
+static int c10_check_memory(int whole_slack)
 {
-	for (int i = 0; i < 64; i++) if (base[-64 + i] != 0xC5) { vx_bfs_fail("guard", "byte %d before the storage was modified", i - 64); return 1; }
-	for (int i = 0; i < S; i++) if (base[D * M + i] != 0x5C) { vx_bfs_fail("slack", "trailing byte %d (not part of a whole message) was modified", i); return 1; }
-	if (base == STATIC_BASE)
-		for (int i = 0; i < 64; i++) if (base[D * M + S + i] != 0xC5) { vx_bfs_fail("guard", "byte %d after the storage was modified", i); return 1; }
+	size_t used = (size_t)c10_D * (size_t)c10_M;
+	for (int i = 0; i < 64; i++) if (c10_base[-64 + i] != 0xC5) { c10_fail("guard", "byte %d before the storage was modified", i - 64); return 1; }
+	/* the slack: all of it when it is small or when asked for (end of a sweep case), both ends otherwise */
+	if (c10_S <= 32 || whole_slack) {
+		if (!c10_all(c10_base + used, (size_t)c10_S, 0x5C))
+			for (int i = 0; i < c10_S; i++) if (c10_base[used + i] != 0x5C) { c10_fail("slack", "trailing byte %d (not part of a whole message) was modified", i); return 1; }
+	} else {
+		for (int j = 0; j < 32; j++) { int i = j < 16 ? j : c10_S - 32 + j; if (c10_base[used + i] != 0x5C) { c10_fail("slack", "trailing byte %d (not part of a whole message) was modified", i); return 1; } }
+	}
+	if (c10_is_static)
+		for (int i = 0; i < 64; i++) if (c10_base[used + c10_S + i] != 0xC5) { c10_fail("guard", "byte %d after the storage was modified", i); return 1; }
 	/* payload of every owned (claimed/sent/held) slot must be what its owner wrote */
-	for (int s = 0; s < D; s++) if (L.status[s] != FREE)
-		for (int j = 0; j < PAYLOAD_N(M); j++) { int i = PAYLOAD_IDX(j, M); if (base[s * M + i] != pat(s, i)) { vx_bfs_fail("payload", "payload byte %d of slot %d changed while owned", i, s); return 1; } }
+	for (int s = 0; s < c10_D; s++) if (c10_L.status[s] != C10_FREE)
+		for (int j = 0; j < C10_PAYLOAD_N(c10_M); j++) {
+			int i = C10_PAYLOAD_IDX(j, c10_M);
+			if (c10_base[(size_t)s * c10_M + i] != c10_pat(s, i)) { c10_fail("payload", "payload byte %d of slot %d changed while owned", i, s); return 1; }
+		}
 	return 0;
 }
 
-static int op_apply(int op)
+static void c10_model_reset(void) { memset(&c10_L, 0, sizeof(c10_L)); }
+
+static int c10_apply(int op)
 {
-	void *p; long s; int exp;
+	void *p = NULL; long s; int exp, k = -1; bool e = false;
 	/* the storage is not part of the snapshot: rebuild it from the model (owned slots carry their pattern) */
-	for (int k = 0; k < D; k++) for (int j = 0; j < PAYLOAD_N(M); j++) { int i = PAYLOAD_IDX(j, M); base[k * M + i] = L.status[k] != FREE ? pat(k, i) : 0; }
-	if (!(VX_TRY)) { VX_END; vx_bfs_fail("fault", "%s", vx_fault_msg); return 1; }
+	for (int q = 0; q < c10_D; q++) for (int j = 0; j < C10_PAYLOAD_N(c10_M); j++) {
+		int i = C10_PAYLOAD_IDX(j, c10_M);
+		c10_base[(size_t)q * c10_M + i] = c10_L.status[q] != C10_FREE ? c10_pat(q, i) : 0;
+	}
+	if (op >= OP_SEND0) k = c10_kth_claimed(op - OP_SEND0);
+	c10_exercised[op >= OP_SEND0 ? 4 : op]++;
+	/* only calls into the library between VX_TRY and VX_END; everything is judged afterwards */
+	if (VX_TRY) {
+		if (op == OP_CLAIM) p = messageq_claim(c10_Q);
+		else if (op == OP_RECEIVE) p = messageq_receive(c10_Q);
+		else if (op == OP_RELEASE) messageq_release(c10_Q, c10_base + (size_t)c10_L.h * c10_M);
+		else if (op == OP_REINIT) messageq_init(c10_Q, c10_base, (size_t)c10_D * c10_M + c10_S, (size_t)c10_M);
+		else messageq_send(c10_Q, c10_base + (size_t)k * c10_M);
+		e = messageq_empty(c10_Q);
+		VX_END;
+	} else { VX_END; c10_fail("fault", "%s", vx_fault_msg); return 1; }
 	if (op == OP_CLAIM) {
-		exercised[0]++;
-		p = messageq_claim(&L.mq); s = slot_of(p);
-		exp = count(FREE) ? L.c : -1;
-		if (exp < 0) null_claims++;
+		s = c10_slot_of(p);
+		int nfree = c10_count(C10_FREE);
+		if (!c10_L.started && s >= 0) { c10_L.c = c10_L.r = c10_L.h = (uint8_t)s; c10_L.started = 1; }	/* any buffer may be the first */
+		exp = nfree ? c10_L.c : -1;
+		if (exp < 0) c10_null_claims++;
 		if (s != exp) {
-			VX_END;
-			if (s == -1) vx_bfs_fail("claim-null", "claim returned NULL although %d of %d buffers are free", count(FREE), D);
-			else if (exp == -1) vx_bfs_fail("claim-overcommit", "claim returned slot %ld although all %d buffers are claimed and unreleased", s, D);
-			else vx_bfs_fail("claim-pointer", "claim returned slot/offset code %ld, expected slot %d (cyclic order, multiple of msg_len inside the storage)", s, exp);
+			if (s == -1) c10_fail("claim-null", "claim returned NULL although %d of %d buffers are free", nfree, c10_D);
+			else if (exp == -1) c10_fail("claim-overcommit", "claim returned slot/offset code %ld although all %d buffers are claimed and unreleased", s, c10_D);
+			else c10_fail("claim-pointer", "claim returned slot/offset code %ld, expected slot %d (cyclic order, multiple of msg_len inside the storage)", s, exp);
 			return 1;
 		}
 		if (exp >= 0) {
-			if (L.status[exp] != FREE) { VX_END; vx_bfs_fail("claim-dup", "claim handed out slot %d which is still owned", exp); return 1; }
-			L.status[exp] = CLAIMED; L.c = (uint8_t)((L.c + 1) % D);
-			for (int j = 0; j < PAYLOAD_N(M); j++) { int i = PAYLOAD_IDX(j, M); base[exp * M + i] = pat(exp, i); }
+			if (c10_L.status[exp] != C10_FREE) { c10_fail("claim-dup", "claim handed out slot %d which is still owned", exp); return 1; }
+			c10_L.status[exp] = C10_CLAIMED; c10_L.c = (uint8_t)((c10_L.c + 1) % c10_D);
+			for (int j = 0; j < C10_PAYLOAD_N(c10_M); j++) { int i = C10_PAYLOAD_IDX(j, c10_M); c10_base[(size_t)exp * c10_M + i] = c10_pat(exp, i); }
 		}
 	} else if (op == OP_RECEIVE) {
-		exercised[1]++;
-		p = messageq_receive(&L.mq); s = slot_of(p);
-		exp = L.status[L.r] == SENT ? L.r : -1;
-		if (exp < 0) null_receives++;
-		if (s != exp) { VX_END; vx_bfs_fail("receive", "receive returned slot code %ld, expected %d (claim order, only once the oldest claimed message is sent)", s, exp); return 1; }
-		if (exp >= 0) { L.status[exp] = HELD; L.r = (uint8_t)((L.r + 1) % D); }
+		s = c10_slot_of(p);
+		exp = c10_L.status[c10_L.r] == C10_SENT ? c10_L.r : -1;
+		if (exp < 0) c10_null_receives++;
+		if (s != exp) { c10_fail("receive", "receive returned slot code %ld, expected %d (claim order, only once the oldest claimed message is sent)", s, exp); return 1; }
+		if (exp >= 0) { c10_L.status[exp] = C10_HELD; c10_L.r = (uint8_t)((c10_L.r + 1) % c10_D); }
 	} else if (op == OP_RELEASE) {
-		exercised[2]++;
-		messageq_release(&L.mq, base + L.h * M);
-		for (int j = 0; j < PAYLOAD_N(M); j++) base[L.h * M + PAYLOAD_IDX(j, M)] = 0;
-		L.status[L.h] = FREE; L.h = (uint8_t)((L.h + 1) % D);
+		for (int j = 0; j < C10_PAYLOAD_N(c10_M); j++) c10_base[(size_t)c10_L.h * c10_M + C10_PAYLOAD_IDX(j, c10_M)] = 0;
+		c10_L.status[c10_L.h] = C10_FREE; c10_L.h = (uint8_t)((c10_L.h + 1) % c10_D);
+	} else if (op == OP_REINIT) {
+		/* whatever was outstanding is dropped by its owner: a fresh queue on the same storage */
+		c10_model_reset();
+		for (int q = 0; q < c10_D; q++) for (int j = 0; j < C10_PAYLOAD_N(c10_M); j++) c10_base[(size_t)q * c10_M + C10_PAYLOAD_IDX(j, c10_M)] = 0;
 	} else {
-		exercised[3]++;
-		int k = kth_claimed(op - OP_SEND0);
-		messageq_send(&L.mq, base + k * M);
-		L.status[k] = SENT;
+		c10_L.status[k] = C10_SENT;
 	}
-	bool e = messageq_empty(&L.mq);
-	if (e != (L.status[L.r] != SENT)) { VX_END; vx_bfs_fail("empty", "messageq_empty is %d but receive would return %s", e, L.status[L.r] == SENT ? "a message" : "nothing"); return 1; }
-	int bad = check_memory();
+	if (e != (c10_L.status[c10_L.r] != C10_SENT)) { c10_fail("empty", "messageq_empty is %d but receive would return %s", e, c10_L.status[c10_L.r] == C10_SENT ? "a message" : "nothing"); return 1; }
+	return c10_check_memory(0);
+}
+static void c10_canon(vx_hasher *h) { vx_h_bytes(h, c10_Q, sizeof(messageq_t)); vx_h_bytes(h, &c10_L, sizeof(c10_L)); }
+static void c10_save(void *dst) { memcpy(dst, c10_Q, sizeof(messageq_t)); memcpy((char *)dst + sizeof(messageq_t), &c10_L, sizeof(c10_L)); }
+static void c10_load(const void *src) { memcpy(c10_Q, src, sizeof(messageq_t)); memcpy(&c10_L, (const char *)src + sizeof(messageq_t), sizeof(c10_L)); }
+static vx_h128 c10_hash_now(void) { vx_hasher h; vx_h_init(&h); c10_canon(&h); vx_lib_hash(&h); return vx_h_done(&h); }
+
+/* ---- configurations: d<D>-m<M>-s<S>-init<fill> | -static<twin>, optionally -pre<N> (N real cycles before the history) */
+static const uint8_t c10_fill[3] = { 0x00, 0xFF, 0xA5 };
+typedef struct { int d, m, s, is_static, idx; uint64_t pre; int sweep; } c10_cfg;	/* sweep: family D (no scope bound, storage not cleared) */
+
+static void c10_cfg_name(const c10_cfg *c, char *out, size_t n)
+{
+	int k = snprintf(out, n, "d%d-m%d-s%d-%s%d", c->d, c->m, c->s, c->is_static ? "static" : c->sweep ? "sweep" : "init", c->idx);
+	if (c->pre) snprintf(out + k, n - (size_t)k, "-pre%llu", (unsigned long long)c->pre);
+}
+static int c10_cfg_parse(const char *t, c10_cfg *c)
+{
+	char kind[16]; unsigned long long pre = 0;
+	memset(c, 0, sizeof(*c));
+	int n = sscanf(t, "d%d-m%d-s%d-%6[a-z]%d-pre%llu", &c->d, &c->m, &c->s, kind, &c->idx, &pre);
+	if (n < 5) return -1;
+	c->pre = pre;
+	c->is_static = 0 == strcmp(kind, "static");
+	c->sweep = 0 == strcmp(kind, "sweep");
+	if (!c->is_static && !c->sweep && strcmp(kind, "init")) return -1;
+	if (c->d < 1 || c->d > C10_MAXD || c->m < 1 || c->m > C10_MAXM || c->s < 0 || c->s >= c->m) return -1;
+	if (c->is_static) {
+		int f = c10_flat_of_id(c->idx);
+		if (f < 0) return -1;
+		const c10_geom_t *g = &c10_geoms[c10_flat[f].tw->geom];
+		return g->d == c->d && g->m == c->m && g->s == c->s ? 0 : -1;
+	}
+	return c->idx >= 0 && c->idx < (int)C10_LEN(c10_fill) ? 0 : -1;
+}
+
+/* a failure of the constructor itself (no history yet): replayable from the configuration alone */
+static void c10_config_violation(const char *clause, const char *name, const char *what)
+{
+	char sig[160], rpl[400];
+	snprintf(sig, sizeof(sig), "%s|%s", clause, name);
+	snprintf(rpl, sizeof(rpl), "config=%s\nsig=%s\n", name, sig);
+	vx_violation(sig, rpl, "%s: %s (%s)", clause, what, name);
+}
+
+/* guarded messageq_init; 0 = returned normally */
+static int c10_init_call(messageq_t *q, uint8_t *basep, int d, int m, int s)
+{
+	if (VX_TRY) { messageq_init(q, basep, (size_t)d * (size_t)m + (size_t)s, (size_t)m); VX_END; return 0; }
 	VX_END;
+	return 1;
+}
+
+/* bring up one configuration: geometry, storage, descriptor, model, scope. sparse: do not clear the whole storage (only
+ * the payload bytes the oracle looks at are ever read, and c10_apply rewrites those before every operation) */
+static int c10_setup(const c10_cfg *c)
+{
+	char name[96];
+	int sparse = c->sweep, unrestricted = c->sweep;
+	c10_D = c->d; c10_M = c->m; c10_S = c->s; c10_is_static = c->is_static;
+	size_t used = (size_t)c10_D * (size_t)c10_M;
+	c10_model_reset();
+	vx_lib_reset();
+	if (c->is_static) {
+		c10_base = C10_STATIC_BASE;
+		memset(c10_base - 64, 0xC5, 64); memset(c10_base + used + c10_S, 0xC5, 64);
+	} else {
+		c10_base = c10_arena_end - (used + (size_t)c10_S);
+		memset(c10_base - 64, 0xC5, 64);
+	}
+	if (!sparse) memset(c10_base, 0, used);
+	memset(c10_base + used, 0x5C, (size_t)c10_S);
+	if (c->is_static) {
+		int f = c10_flat_of_id(c->idx);
+		if (f < 0) { fprintf(stderr, "c10: no such twin\n"); _exit(3); }
+		c10_Q = c10_flat[f].tw->obj; c10_cur_text = c10_flat[f].tw->text;
+		memcpy(c10_Q, c10_flat[f].pristine, sizeof(messageq_t));	/* back to what the initialiser wrote */
+	} else {
+		/* the descriptor is somebody's uninitialised or re-used memory: never rely on it being clean */
+		c10_Q = &c10_dyn; c10_cur_text = NULL;
+		memset(&c10_dyn, c10_fill[c->idx], sizeof(c10_dyn));
+		if (c10_init_call(&c10_dyn, c10_base, c10_D, c10_M, c10_S)) {
+			c10_cfg_name(c, name, sizeof(name));
+			c10_config_violation("init-fault", name, vx_fault_msg);
+			return 1;
+		}
+	}
+	if (unrestricted) { c10_max_unsent = 0; c10_max_held = 0; c10_nops = OP_SEND0 + c10_D; }
+	else if (vx_thorough()) {
+		if (c10_D <= 7) { c10_max_unsent = 0; c10_max_held = 0; c10_nops = OP_SEND0 + c10_D; }
+		else if (c10_D <= 16) { c10_max_unsent = 4; c10_max_held = 0; c10_nops = OP_SEND0 + 4; }
+		else { c10_max_unsent = 3; c10_max_held = 5; c10_nops = OP_SEND0 + 3; }
+	} else {
+		if (c10_D <= 5) { c10_max_unsent = 0; c10_max_held = 0; c10_nops = OP_SEND0 + c10_D; }
+		else if (c10_D <= 12) { c10_max_unsent = 3; c10_max_held = 0; c10_nops = OP_SEND0 + 3; }
+		else { c10_max_unsent = 2; c10_max_held = 3; c10_nops = OP_SEND0 + 2; }
+	}
+	return 0;
+}
+
+/* run a fixed history through the oracle (the replay executor of the engine: failures carry a complete, replayable
+ * history); 0 = clean, 1 = violation recorded, -1 = the script asked for a disabled operation (harness bug) */
+static int c10_script(const char *name, const char *ops)
+{
+	c10_b.name = name; c10_b.nops = c10_nops;
+	int r = vx_bfs_replay(&c10_b, ops);
+	vx_store_free(&c10_b.st);
+	return r;
+}
+
+/* ---- family C: real cycles. One cycle = claim; send; receive; release on a quiescent queue. */
+static uint64_t c10_cyc;		/* cycles completed (a global: the library calls are opaque, so it is current at a fault) */
+static uint64_t c10_fast_total;
+
+/* cycles [from, to) on the fast path: every returned pointer and messageq_empty compared, nothing else. 0 = clean,
+ * 1 = cycle number c10_cyc (0-based) misbehaved or faulted */
+static int c10_fast_cycles(uint64_t from, uint64_t to)
+{
+	unsigned c = c10_L.c;
+	int bad = 0;
+	c10_cyc = from;
+	while (c10_cyc < to && !bad) {
+		if ((c10_cyc & 0xffffff) == 0 && vx_deadline_passed()) { bad = 2; break; }
+		uint64_t stop = c10_cyc + 65536 < to ? c10_cyc + 65536 : to;
+		if (VX_TRY) {
+			while (c10_cyc < stop) {
+				uint8_t *want = c10_base + (size_t)c * c10_M;
+				void *p = messageq_claim(c10_Q);
+				if (p != want) { bad = 1; break; }
+				messageq_send(c10_Q, p);
+				if (messageq_empty(c10_Q)) { bad = 1; break; }
+				if (messageq_receive(c10_Q) != want) { bad = 1; break; }
+				if (!messageq_empty(c10_Q)) { bad = 1; break; }
+				messageq_release(c10_Q, want);
+				c = c + 1 >= (unsigned)c10_D ? 0 : c + 1;
+				c10_cyc++;
+			}
+			VX_END;
+		} else { VX_END; bad = 1; }
+	}
+	c10_fast_total += c10_cyc - from;
+	c10_L.c = c10_L.r = c10_L.h = (uint8_t)c;
 	return bad;
 }
-static void op_canon(vx_hasher *h) { vx_h_bytes(h, &L, sizeof(L)); }
-
-/* ---- geometries and their static-initialiser twins (generated) */
-typedef struct { int d, m, s; messageq_t *stat; } geom_t;
-#include "c10_geoms.h"		/* static messageq_t sq_<i> = MESSAGEQ_VAR_INIT(STATIC_BASE, d*m+s, m); geom_t geoms[] */
-
-static void prep_arena(int use_static)
+/* from a freshly set-up queue to the state after n cycles: the first one through the full oracle (it fixes the
+ * rotation), the rest on the fast path. 0 = clean; 1 = failed at cycle c10_cyc (violation recorded if it was cycle 0) */
+static int c10_cycles_from_start(const char *name, uint64_t n)
 {
-	if (use_static) { memset(static_arena, 0xC5, sizeof(static_arena)); base = STATIC_BASE; }
-	else { base = arena_end - (D * M + S); memset(base - 64, 0xC5, 64); }
-	memset(base, 0, (size_t)D * (size_t)M); memset(base + (size_t)D * (size_t)M, 0x5C, (size_t)S);
+	c10_cyc = 0;
+	if (n == 0) return 0;
+	if (c10_script(name, "ops=0 4 1 2")) return 1;
+	return c10_fast_cycles(1, n);
 }
-static void setup(const geom_t *g, int use_static)
+/* the fast path saw cycle number `at` misbehave: reproduce it through the full oracle, which reports it with a history */
+static void c10_pin(const c10_cfg *c0, uint64_t at)
 {
-	D = g->d; M = g->m; S = g->s;
-	memset(&L, 0, sizeof(L));
-	prep_arena(use_static);
-	if (use_static) L.mq = *g->stat;
-	else messageq_init(&L.mq, base, (size_t)(D * M + S), (size_t)M);
-	if (vx_thorough()) {
-		if (D <= 7) { max_unsent = 0; max_held = 0; nops = OP_SEND0 + D; }
-		else if (D <= 16) { max_unsent = 4; max_held = 0; nops = OP_SEND0 + 4; }
-		else { max_unsent = 3; max_held = 5; nops = OP_SEND0 + 3; }
-	} else {
-		if (D <= 5) { max_unsent = 0; max_held = 0; nops = OP_SEND0 + D; }
-		else if (D <= 12) { max_unsent = 3; max_held = 0; nops = OP_SEND0 + 3; }
-		else { max_unsent = 2; max_held = 3; nops = OP_SEND0 + 2; }
+	c10_cfg c = *c0; char name[96];
+	uint64_t before = vx_viol_total;
+	c.pre = at;
+	c10_cfg_name(&c, name, sizeof(name));
+	if (c10_setup(&c)) return;
+	if (c10_cycles_from_start(name, at)) {
+		if (vx_viol_total == before) c10_config_violation("cycles-irreproducible", name, "a cycle that was clean failed when repeated");
+		return;
+	}
+	if (c10_script(name, "ops=0 4 1 2") != 1)
+		c10_config_violation("cycles-fast-path-only", name, "the fast path rejected a cycle the full oracle accepts");
+}
+
+/* ---- one BFS run on the configuration that is set up; results stay in c10_b until vx_bfs_free */
+/* resource caps, far above anything the unchanged library needs (a capped search is reported, the run is then not
+ * exhaustive): states per search; once this worker has a counterexample, or two of its searches did not converge, it
+ * does not pour more time into state spaces that an ever-growing counter keeps inflating */
+static int c10_capped_searches;
+static uint64_t c10_max_states(void) { return vx_nviols ? 300000 : vx_thorough() ? 24000000 : 1000000; }
+static int c10_no_more_searches(void)
+{
+	if (c10_capped_searches < 2) return 0;
+	vx_and("exhaustive", 0); vx_count("searches_skipped_after_two_did_not_converge", 1);
+	return 1;
+}
+static void c10_search(const char *name, const char *family)
+{
+	char cn[64];
+	c10_b.name = name; c10_b.nops = c10_nops; c10_b.max_depth = 0; c10_b.max_states = c10_max_states();
+	c10_in_search = 1;
+	vx_bfs_run(&c10_b);
+	c10_in_search = 0;
+	vx_count("states", c10_b.states); vx_count("transitions", c10_b.transitions); vx_count("traces", c10_b.transitions);
+	vx_count("scope_guard_disabled_ops", c10_b.disabled);
+	vx_and("exhaustive", c10_b.fixpoint); vx_max("max_depth", (uint64_t)c10_b.depth_done);
+	vx_max("largest_search_states", c10_b.states);
+	vx_count("geometry_runs", 1);
+	snprintf(cn, sizeof(cn), "searches_%s", family); vx_count(cn, 1);
+	if (!c10_b.fixpoint) { vx_count("searches_capped", 1); if (c10_b.capped) c10_capped_searches++; }
+	if (!c10_max_unsent) vx_count("geometries_full_fixpoint", 1); else vx_count("geometries_restricted_fixpoint", 1);
+}
+static void c10_sample_search(const char *name)
+{
+	vx_sb hs = {0}; static uint32_t ops[512];
+	int n = vx_store_trace(&c10_b.st, c10_b.st.n - 1, ops, 60);
+	for (int k = 0; k < n; k++) { if (k) vx_sb_printf(&hs, "; "); c10_describe((int)ops[k], &hs); }
+	vx_sample("%s: %llu states %llu transitions fixpoint=%d; start of the deepest history: %s", name,
+		(unsigned long long)c10_b.states, (unsigned long long)c10_b.transitions, c10_b.fixpoint, hs.s ? hs.s : "");
+	free(hs.s);
+}
+
+static int c10_stop(void) { return vx_too_many_violations() || vx_hangs_seen >= 3; }
+
+/* family C on the configuration `c` whose BFS (visited set) is still in c10_b */
+static void c10_counter_starts(const c10_cfg *c)
+{
+	static const uint64_t quick_n[] = { 254, 255, 256, 257, 65534, 65535, 65536, 65537 };
+	static const uint64_t deep_n[] = { (1ull << 31) - 2, (1ull << 31) - 1, 1ull << 31, (1ull << 31) + 1,
+					   (1ull << 32) - 2, (1ull << 32) - 1, 1ull << 32, (1ull << 32) + 1 };
+	uint64_t marks[16]; int nm = 0;
+	char name[96], base_name[96];
+	for (unsigned i = 0; i < C10_LEN(quick_n); i++) marks[nm++] = quick_n[i];
+	/* 2^32 real cycles take minutes: thorough tier, the smallest depth that does not divide a power of two and the largest odd one */
+	if (vx_thorough() && (c->d == 3 || c->d == 31)) for (unsigned i = 0; i < C10_LEN(deep_n); i++) marks[nm++] = deep_n[i];
+	vx_set base_seen = c10_b.seen;		/* keep the visited set of the search from the fresh queue */
+	memset(&c10_b.seen, 0, sizeof(c10_b.seen));
+	vx_store_free(&c10_b.st);
+	uint8_t *img = malloc(C10_IMG + vx_lib_size());
+	c10_cfg_name(c, base_name, sizeof(base_name));
+	if (c10_setup(c)) goto out;
+	uint64_t done = 0;
+	for (int k = 0; k < nm && !c10_stop(); k++) {
+		int bad = done == 0 ? c10_cycles_from_start(base_name, marks[k]) : c10_fast_cycles(done, marks[k]);
+		if (bad == 2) { vx_count("counter_start_cycles", c10_cyc - done); vx_and("exhaustive", 0); vx_count("counter_starts_skipped_deadline", (uint64_t)(nm - k)); goto out; }
+		if (bad) {
+			vx_count("counter_start_cycles", c10_cyc - done);
+			if (c10_cyc > 0) c10_pin(c, c10_cyc);
+			goto out;
+		}
+		vx_count("counter_start_cycles", marks[k] - done);
+		done = marks[k];
+		vx_count("counter_start_states", 1);
+		if (vx_deadline_passed()) { vx_and("exhaustive", 0); vx_count("counter_starts_skipped_deadline", (uint64_t)(nm - k - 1)); break; }
+		if (vx_set_has(&base_seen, c10_hash_now())) { vx_count("counter_start_states_already_visited", 1); continue; }
+		if (c10_no_more_searches()) continue;
+		/* an image the search from the fresh queue never produced: search from here */
+		c10_cfg cc = *c; cc.pre = done;
+		c10_cfg_name(&cc, name, sizeof(name));
+		c10_save(img); vx_lib_save(img + C10_IMG);
+		c10_search(name, "from_counter_start");
+		vx_bfs_free(&c10_b);
+		c10_load(img); vx_lib_restore(img + C10_IMG);
+	}
+	vx_max("counter_start_cycles_longest_run", done);
+	if (c->d == 3)
+		vx_sample("counter start states: %s driven through %llu real claim;send#0;receive;release cycles (every cycle compared), stopping at %d cycle counts from 254 to %llu; at each the descriptor image is looked up among the states the search from the fresh queue visited",
+			  base_name, (unsigned long long)done, nm, (unsigned long long)marks[nm - 1]);
+out:
+	free(img);
+	vx_set_free(&base_seen);
+}
+
+/* ---- family D: the sweep history for depth d (cached) */
+static const char *c10_sweep_ops(int d)
+{
+	static char *cache[C10_MAXD + 1];
+	if (cache[d]) return cache[d];
+	vx_sb sb = {0};
+	vx_sb_printf(&sb, "ops=");
+	for (int i = 0; i <= d; i++) vx_sb_printf(&sb, "0 ");				/* fill; one claim too many */
+	for (int i = 0; i < d; i++) vx_sb_printf(&sb, "%d 1 1 ", OP_SEND0);		/* send oldest, receive it, receive nothing */
+	for (int i = 0; i < d; i++) vx_sb_printf(&sb, "2 ");				/* release all */
+	vx_sb_printf(&sb, "0 %d 1 2 ", OP_SEND0);					/* one cycle: cursors move on by one */
+	for (int i = 0; i < d; i++) vx_sb_printf(&sb, "0 ");				/* fill across the wrap */
+	for (int i = d - 1; i >= 0; i--) vx_sb_printf(&sb, "%d ", OP_SEND0 + i);	/* send newest first */
+	for (int i = 0; i <= d; i++) vx_sb_printf(&sb, "1 ");				/* receive all; one too many */
+	for (int i = 0; i < d; i++) vx_sb_printf(&sb, "2 ");
+	return cache[d] = sb.s;
+}
+static int c10_sweep_ops_count(int d) { return 9 * d + 6; }
+static uint64_t c10_sweep_cases, c10_sweep_opcount;
+static void c10_sweep_case(int d, int m, int s)
+{
+	c10_cfg c = { d, m, s, 0, 0, 0, 1 }; char name[96];
+	c10_cfg_name(&c, name, sizeof(name));
+	c10_sweep_cases++;
+	if (c10_setup(&c)) return;
+	int r = c10_script(name, c10_sweep_ops(d));
+	if (r < 0) { fprintf(stderr, "c10: sweep script not executable\n"); _exit(3); }
+	if (r == 0) {
+		c10_sweep_opcount += (uint64_t)c10_sweep_ops_count(d);
+		/* the whole slack once more at the end of the case; reported against the complete history */
+		c10_b.name = name;
+		if (c10_S > 32 && !c10_all(c10_base + (size_t)d * m, (size_t)s, 0x5C)) {
+			char sig[200], rpl[400];
+			snprintf(sig, sizeof(sig), "slack|%s|sweep history", name);
+			snprintf(rpl, sizeof(rpl), "config=%s\nsig=%s\n", name, sig);
+			vx_violation(sig, rpl, "slack: a trailing byte that is not part of a whole message was modified during the sweep history (%s)", name);
+		}
 	}
 }
-static int same_descriptor(const messageq_t *a, const messageq_t *b)
+static int c10_in_grid(int m)
 {
-	return a->basep == b->basep && a->msg_len == b->msg_len && a->queue_len == b->queue_len &&
-	       atomic_load(&((messageq_t *)a)->num_free) == atomic_load(&((messageq_t *)b)->num_free) &&
-	       atomic_load(&((messageq_t *)a)->sendp) == atomic_load(&((messageq_t *)b)->sendp) &&
-	       atomic_load(&((messageq_t *)a)->full_flags) == atomic_load(&((messageq_t *)b)->full_flags) &&
-	       a->receivep == b->receivep;
+	static const int extra[] = { 13, 100, 1000, 2114, 2115, 3000, 5000, 7000, 10000, 24000, 40000, 50000, 65534 };
+	for (int k = 0; k <= 16; k++) { int p = 1 << k; if (m == p - 1 || m == p || m == p + 1) return 1; }
+	for (unsigned i = 0; i < C10_LEN(extra); i++) if (m == extra[i]) return 1;
+	return m <= 16;
+}
+static void c10_sweep(uint64_t *unit)
+{
+	for (int m = 1; m <= C10_MAXM; m++) {
+		if (!vx_mine((*unit)++)) continue;
+		if (c10_stop()) break;
+		if ((m & 63) == 0 && vx_deadline_passed()) { vx_and("exhaustive", 0); vx_count("sweep_sizes_skipped_deadline", (uint64_t)(C10_MAXM - m + 1) / (uint64_t)vx_args.nworkers); break; }
+		int all_depths = vx_thorough() || c10_in_grid(m);
+		for (int d = all_depths ? 1 : C10_MAXD; d <= C10_MAXD; d++) {
+			c10_sweep_case(d, m, 0);
+			if (m > 1) c10_sweep_case(d, m, m - 1);
+		}
+	}
+	vx_count("sweep_cases", c10_sweep_cases); vx_count("sweep_operations", c10_sweep_opcount); vx_count("traces", c10_sweep_opcount);
+	if (c10_sweep_cases && vx_args.worker == 0)
+		vx_sample("geometry sweep: %llu cases on this worker, each the fixed history of 9*depth+6 operations (fill, claim once more, send+receive+receive one by one, release all, one cycle, fill, send newest first, receive depth+1 times, release all), e.g. the last one: depth %d msg_len %d slack %d",
+			  (unsigned long long)c10_sweep_cases, c10_D, c10_M, c10_S);
 }
 
-static int geom_selected(const geom_t *g)
+/* ---- family B: the static twins of geometry g */
+static int c10_twin_explored_already(uint8_t (*seen)[sizeof(messageq_t)], int n, const void *img)
+{
+	for (int i = 0; i < n; i++) if (0 == memcmp(seen[i], img, sizeof(messageq_t))) return 1;
+	return 0;
+}
+static void c10_twins_of(int gi, int selected, uint64_t init_states, uint64_t init_trans, int init_fixpoint)
+{
+	static uint8_t explored[8][sizeof(messageq_t)];
+	const c10_geom_t *g = &c10_geoms[gi];
+	int nexplored = 0; char name[96];
+	/* what messageq_init makes of the same arguments on a clean descriptor */
+	memset(&c10_ref, 0, sizeof(c10_ref));
+	int ref_ok = !c10_init_call(&c10_ref, C10_STATIC_BASE, g->d, g->m, g->s);
+	for (int f = c10_first[gi]; f < c10_first[gi + 1] && !c10_stop(); f++) {
+		c10_cfg c = { g->d, g->m, g->s, 1, c10_flat[f].id, 0 };
+		int first = f == c10_first[gi];
+		int identical = ref_ok && 0 == memcmp(c10_flat[f].pristine, &c10_ref, sizeof(messageq_t));
+		vx_count("constructor_pairs_compared", 1);
+		if (!first) vx_count("constructor_pairs_compared_spelled_arguments", 1);
+		if (identical) vx_count("constructor_images_identical", 1);
+		/* byte-identical descriptors behave identically. The plain twin of a small or 32-deep geometry is searched anyway
+		 * (the static object's address is another base address); any other image is searched once per geometry */
+		int plain = first && selected && (g->d <= 4 || g->d == C10_MAXD);
+		if (identical && !first && g->d == 3 && g->m == 4 && g->s == 1 && (f - c10_first[gi]) % 50 == 7)
+			vx_sample("static twin byte-identical to what messageq_init builds on a clean descriptor: d%d-m%d-s%d-static%d = %s", g->d, g->m, g->s, c10_flat[f].id, c10_flat[f].tw->text);
+		if (identical && !plain) continue;
+		if (!identical) {
+			if (c10_twin_explored_already(explored, nexplored, c10_flat[f].pristine)) { vx_count("constructor_images_same_as_a_searched_twin", 1); continue; }
+			if (nexplored < 8) memcpy(explored[nexplored++], c10_flat[f].pristine, sizeof(messageq_t));
+			vx_count("constructor_images_different_searched", 1);
+		}
+		if (vx_deadline_passed()) { vx_and("exhaustive", 0); vx_count("twin_searches_skipped_deadline", 1); continue; }
+		if (c10_no_more_searches()) continue;
+		c10_cfg_name(&c, name, sizeof(name));
+		if (c10_setup(&c)) continue;
+		c10_search(name, "static_twin");
+		if (first && init_fixpoint && c10_b.fixpoint) {
+			/* informative only: both constructors conform to the same deterministic model, which is what "the same
+			 * queue" means; the sizes of the raw state graphs may legitimately differ (e.g. a lazily filled field) */
+			vx_count("constructor_graph_pairs_compared", 1);
+			if (init_states == c10_b.states && init_trans == c10_b.transitions) vx_count("constructor_graph_pairs_same_size", 1);
+			else vx_note("raw state graphs of the two constructors differ in size for d%d-m%d-s%d (%llu/%llu states); not judged", g->d, g->m, g->s,
+				     (unsigned long long)init_states, (unsigned long long)c10_b.states);
+		}
+		if (!identical && vx_nsamples < 3)
+			vx_sample("static twin searched because its image differs from messageq_init's: %s = %s", name, c10_flat[f].tw->text);
+		vx_bfs_free(&c10_b);
+		memcpy(c10_flat[f].tw->obj, c10_flat[f].pristine, sizeof(messageq_t));
+	}
+}
+
+static int c10_geom_selected(const c10_geom_t *g)
 {
 	if (vx_thorough()) return 1;
-	/* quick: every depth with msg_len 4 / slack 0 and 3; all message sizes at a few depths */
+	/* quick: every depth with msg_len 4 / slack 0, 1 and 3; all message sizes at a few depths */
 	if (g->m == 4 || g->m > 12) return 1;	/* the large message sizes are few: always */
 	return g->d <= 3 || g->d == 8 || g->d == 31 || g->d == 32;
 }
@@ -188,76 +618,80 @@ int main(int argc, char **argv)
 	vx_init(argc, argv);
 	vx_install_handlers();
 	vx_watchdog(2.0);
-	uint8_t *gp = vx_guard_alloc(ARENA_MAX + 64, 1);
-	arena_end = gp + ARENA_MAX + 64; arena = gp;
-	vx_bfs b = { .live = &L, .size = sizeof(L), .enabled = op_enabled, .apply = op_apply,
-		     .canon = op_canon, .describe = op_describe };
-	char name[64];
+	uint8_t *gp = vx_guard_alloc(C10_ARENA_MAX + 64, 1);
+	c10_arena_end = gp + C10_ARENA_MAX + 64;
+	c10_b = (vx_bfs){ .live = NULL, .size = C10_IMG, .enabled = c10_enabled, .apply = c10_apply,
+			  .canon = c10_canon, .describe = c10_describe, .save = c10_save, .load = c10_load };
+	/* generator sanity: every pointer spelling means C10_STATIC_BASE, the table is consistent */
+	for (int k = 0; k < C10_PTR_FORMS; k++) if (c10_ptr_form(k) != C10_STATIC_BASE) { fprintf(stderr, "c10: pointer spelling %d is not the static base\n", k); return 3; }
+	if (c10_twins_init()) { fprintf(stderr, "c10: inconsistent twin tables\n"); return 3; }
+	if (vx_args.worker == 0) {	/* sizes of the generated tables, reported once */
+		vx_count("static_twins_plain", C10_LEN(c10_plain));
+		for (int k = 0; k < C10_UNITS; k++) vx_count("static_twins_with_spelled_arguments", (uint64_t)c10_units[k].n);
+	}
+
+	char name[96];
 	char *rp = vx_read_replay();
 	if (rp) {
 		const char *cn = vx_replay_field(rp, "config");
-		int d, m, s, st;
-		if (cn && sscanf(cn, "d%d-m%d-s%d-static%d", &d, &m, &s, &st) == 4)
-			for (unsigned i = 0; i < lengthof(geoms); i++) if (geoms[i].d == d && geoms[i].m == m && geoms[i].s == s) {
-				setup(&geoms[i], st); b.nops = nops; b.name = cn;
-				if (st && !strstr(rp, "ops=")) {
-					messageq_t ref; messageq_init(&ref, STATIC_BASE, (size_t)(d * m + s), (size_t)m);
-					if (!same_descriptor(&ref, geoms[i].stat)) vx_violation(vx_replay_field(rp, "sig"), rp, "static initialiser differs from messageq_init");
-				} else vx_bfs_replay(&b, rp);
-			}
+		c10_cfg c;
+		if (!cn || c10_cfg_parse(cn, &c)) { fprintf(stderr, "c10: malformed replay file\n"); return 3; }
+		snprintf(name, sizeof(name), "%.90s", cn);
+		uint64_t pre = c.pre;
+		/* a sweep case without a history: the whole case (its last check is not tied to one operation) */
+		if (c.sweep && !strstr(rp, "ops=")) c10_sweep_case(c.d, c.m, c.s);
+		else if (!c10_setup(&c) && !(pre && c10_cycles_from_start(name, pre)) && strstr(rp, "ops=")) c10_script(name, rp);
 		vx_finish();
 		return 0;
 	}
-	for (unsigned i = 0; i < lengthof(geoms); i++) {
-		const geom_t *g = &geoms[i];
-		if (!vx_mine(i) || !geom_selected(g)) continue;
-		if (vx_deadline_passed()) { vx_and("exhaustive", 0); vx_count("geometries_skipped_deadline", 1); continue; }
-		uint64_t st_states[2] = {0}, st_trans[2] = {0};
-		for (int use_static = 0; use_static < 2; use_static++) {
-			/* the static twin is explored for the small depths and depth 32; its descriptor is compared for all */
-			if (use_static) {
-				messageq_t ref; D = g->d; M = g->m; S = g->s;
-				messageq_init(&ref, STATIC_BASE, (size_t)(D * M + S), (size_t)M);
-				vx_count("constructor_pairs_compared", 1);
-				if (!same_descriptor(&ref, g->stat)) {
-					char sig[128], rpl[128];
-					snprintf(name, sizeof(name), "d%d-m%d-s%d-static1", g->d, g->m, g->s);
-					snprintf(sig, sizeof(sig), "constructors-differ|%s", name);
-					snprintf(rpl, sizeof(rpl), "config=%s\nsig=%s\n", name, sig);
-					vx_violation(sig, rpl, "MESSAGEQ_VAR_INIT and messageq_init describe different queues for depth %d msg_len %d slack %d", g->d, g->m, g->s);
+
+	uint64_t unit = 0;
+	/* the searches first (the counter start states with them), then the sweep */
+	for (unsigned i = 0; i < C10_LEN(c10_geoms); i++) {
+		const c10_geom_t *g = &c10_geoms[i];
+		if (!vx_mine(unit++)) continue;
+		if (c10_stop()) break;
+		int selected = c10_geom_selected(g);
+		uint64_t st0 = 0, tr0 = 0; int fix0 = 0;
+		if (selected && vx_deadline_passed()) { vx_and("exhaustive", 0); vx_count("geometries_skipped_deadline", 1); selected = 0; }
+		if (selected && c10_no_more_searches()) selected = 0;
+		if (selected) {
+			c10_cfg c = { g->d, g->m, g->s, 0, 0, 0 };
+			c10_cfg_name(&c, name, sizeof(name));
+			if (!c10_setup(&c)) {
+				c10_search(name, "init");
+				st0 = c10_b.states; tr0 = c10_b.transitions; fix0 = c10_b.fixpoint;
+				if ((g->d == 2 || g->d == 32) && g->m == 4 && g->s == 3) c10_sample_search(name);
+				/* the same call on a descriptor full of 0xFF / 0xA5: an image the first search has visited behaves the same */
+				vx_set seen0 = c10_b.seen; memset(&c10_b.seen, 0, sizeof(c10_b.seen));
+				vx_store_free(&c10_b.st);
+				for (int f = 1; f < (int)C10_LEN(c10_fill) && !c10_stop(); f++) {
+					c10_cfg cf = c; cf.idx = f;
+					c10_cfg_name(&cf, name, sizeof(name));
+					vx_count("dirty_descriptor_inits", 1);
+					if (c10_setup(&cf)) continue;
+					if (vx_set_has(&seen0, c10_hash_now())) {
+						vx_count("dirty_descriptor_images_already_visited", 1);
+						if (g->d == 2 && g->m == 4 && g->s == 3 && f == 1) vx_sample("%s: messageq_init on a descriptor filled with 0xFF gives an image the search from %s-init0 has visited", name, "d2-m4-s3");
+						continue;
+					}
+					if (c10_no_more_searches()) continue;
+					c10_search(name, "dirty_init");
+					vx_bfs_free(&c10_b);
 				}
-				if (!(g->d <= 4 || g->d == 32)) continue;
+				c10_b.seen = seen0;
+				if (g->m == 4 && g->s == 1 && !c10_stop()) c10_counter_starts(&c);
+				else vx_set_free(&c10_b.seen);
+				memset(&c10_b.seen, 0, sizeof(c10_b.seen));
 			}
-			setup(g, use_static);
-			snprintf(name, sizeof(name), "d%d-m%d-s%d-static%d", g->d, g->m, g->s, use_static);
-			b.name = name; b.nops = nops; b.max_depth = 0;
-			vx_bfs_run(&b);
-			st_states[use_static] = b.states; st_trans[use_static] = b.transitions;
-			vx_count("states", b.states); vx_count("transitions", b.transitions); vx_count("traces", b.transitions);
-			vx_count("scope_guard_disabled_ops", b.disabled);
-			vx_and("exhaustive", b.fixpoint); vx_max("max_depth", (uint64_t)b.depth_done);
-			vx_count("geometry_runs", 1);
-			if (!max_unsent) vx_count("geometries_full_fixpoint", 1); else vx_count("geometries_restricted_fixpoint", 1);
-			if ((g->d == 2 || g->d == 32) && g->m == 4 && g->s == 3 && !use_static) {
-				vx_sb hs = {0}; static uint32_t ops[512];
-				int n = vx_store_trace(&b.st, b.st.n - 1, ops, 512);
-				for (int k = 0; k < n; k++) { if (k) vx_sb_printf(&hs, "; "); op_describe((int)ops[k], &hs); }
-				vx_sample("%s: %llu states %llu transitions fixpoint=%d; deepest history (%d ops): %s", name,
-					(unsigned long long)b.states, (unsigned long long)b.transitions, b.fixpoint, n, hs.s ? hs.s : "");
-				free(hs.s);
-			}
-			vx_bfs_free(&b);
 		}
-		if (st_states[1] && (st_states[0] != st_states[1] || st_trans[0] != st_trans[1])) {
-			char sig[128], rpl[128];
-			snprintf(name, sizeof(name), "d%d-m%d-s%d-static1", g->d, g->m, g->s);
-			snprintf(sig, sizeof(sig), "constructors-graph-differ|%s", name);
-			snprintf(rpl, sizeof(rpl), "config=%s\nsig=%s\n", name, sig);
-			vx_violation(sig, rpl, "state graphs differ between constructors: %llu/%llu states", (unsigned long long)st_states[0], (unsigned long long)st_states[1]);
-		}
+		c10_twins_of((int)i, selected, st0, tr0, fix0);
 	}
-	vx_count("op_claim", exercised[0]); vx_count("op_receive", exercised[1]); vx_count("op_release", exercised[2]);
-	vx_count("op_send", exercised[3]); vx_count("claims_expected_null", null_claims); vx_count("receives_expected_null", null_receives);
+	if (!c10_stop()) c10_sweep(&unit);
+	vx_count("op_claim", c10_exercised[0]); vx_count("op_receive", c10_exercised[1]); vx_count("op_release", c10_exercised[2]);
+	vx_count("op_init_again", c10_exercised[3]); vx_count("op_send", c10_exercised[4]);
+	vx_count("claims_expected_null", c10_null_claims); vx_count("receives_expected_null", c10_null_receives);
+	vx_count("counter_start_fast_cycles", c10_fast_total);
 	vx_finish();
 	return 0;
 }
